@@ -19,6 +19,7 @@
   is the list of bytes in front of it; `none` = a read outside the input.
 -/
 import IgrisModel.C09.Lemmas
+import IgrisModel.C09.More
 namespace Igris.C09
 open Igris.Proto
 
@@ -213,6 +214,176 @@ theorem map_insert_ordered (kt : Ty) (kvs : List Val) (h : kvs.Pairwise (keyOrde
     mapFromList kt kvs = kvs :=
   mapFromList_ordered kt kvs h
 
+/-! ## 6. extension: framing, locality, truncation of the archive reader -/
+
+/-- UNIQUE PARSE (framing / prefix-freeness): if two encodings of a type, each
+followed by anything, are the same byte string, the values and the
+continuations are the same — no encoding is a proper prefix of another one,
+which is what makes concatenated values decodable -/
+theorem unique_parse_A (ty : Ty) (v w : Val) (x y : List Byte) (hv : WF ty v) (hw : WF ty w)
+    (h : encodeA ty v ++ x = encodeA ty w ++ y) : v = w ∧ x = y := by
+  have a := rtA ty v x hv
+  have b := rtA ty w y hw
+  rw [h, b] at a
+  simp only [Option.some.injEq, Prod.mk.injEq] at a
+  exact ⟨a.1.symm, a.2.symm⟩
+
+theorem unique_parse_S (ty : Ty) (v w : Val) (x y : List Byte) (hs : ty.supportedS = true)
+    (hv : WF ty v) (hw : WF ty w) (h : encodeS ty v ++ x = encodeS ty w ++ y) : v = w ∧ x = y := by
+  have a := rtS ty v x hs hv
+  have b := rtS ty w y hs hw
+  rw [h, b] at a
+  simp only [Option.some.injEq, Prod.mk.injEq] at a
+  exact ⟨a.1.symm, a.2.symm⟩
+
+/-- no encoding is a proper prefix of another encoding of the same type -/
+theorem prefix_free_A (ty : Ty) (v w : Val) (x : List Byte) (hv : WF ty v) (hw : WF ty w)
+    (h : encodeA ty v ++ x = encodeA ty w) : v = w ∧ x = [] := by
+  have := unique_parse_A ty v w x [] hv hw (by rw [h, List.append_nil])
+  exact this
+
+/-- NO LOOK-AHEAD: whenever the archive reader returns, what it leaves is a
+suffix of its input, and the value and the consumption are determined by the
+consumed bytes alone: replace what follows them by anything (`y`) and the same
+value comes back with `y` untouched.  For every type, every input (not only
+encodings). -/
+theorem archive_reader_local (ty : Ty) (input : List Byte) (v : Val) (r : List Byte)
+    (h : decodeA ty input = some (v, r)) :
+    ∃ p, input = p ++ r ∧ ∀ y, decodeA ty (p ++ y) = some (v, y) :=
+  local_decodeA ty input v r h
+
+theorem archive_reader_local_seq (ts : List Ty) (input : List Byte) (vs : List Val) (r : List Byte)
+    (h : decodeFieldsA ts input = some (vs, r)) :
+    ∃ p, input = p ++ r ∧ ∀ y, decodeFieldsA ts (p ++ y) = some (vs, y) :=
+  local_decodeFieldsA ts input vs r h
+
+/- TRUNCATED INPUT, archive reader.  The full statement would be "on a truncated
+   encoding the reader never reads beyond the supplied bytes":
+       ∀ ty v k, ∃ v' c, c ≤ k ∧ decodeA ty ((encodeA ty v).take k) = some (v', …)
+   It is FALSE for the code: `binary_buffer_reader` stores `_end` and never compares
+   with it (finding C09-archive-reader-unbounded, probes `ta …`).  What holds is the
+   exact opposite, for EVERY proper prefix of EVERY encoding: -/
+
+/-- `_partial` (characterisation of the finding): on every proper prefix of the
+encoding of a well-formed value the archive reader reads past the end of the
+supplied bytes (model fault = ASan heap-buffer-overflow on an exactly sized
+copy).  With `roundtrip_prefix_A`: the reader stays inside its input iff the
+input contains a complete encoding. -/
+theorem truncated_A_faults (ty : Ty) (v : Val) (h : WF ty v) (k : Nat)
+    (hk : k < (encodeA ty v).length) : decodeA ty ((encodeA ty v).take k) = none :=
+  decodeA_prefix_none ty v h k hk
+
+/-- `_witness`: a `uint32_t` cut after two bytes / a string whose length field survives but not its bytes -/
+theorem truncated_A_witness :
+    decodeA (.sc .u32) ((encodeA (.sc .u32) (.sc 0x04030201)).take 2) = none ∧
+    decodeA .str ((encodeA .str (.bytes [0x61, 0x62, 0x63])).take 4) = none := by decide
+
+/-! ## 7. extension: the documented layout as one recursive specification -/
+
+/-- the bytes written for ANY type of the universe are the documented layout
+(`layout`: defined from the format description alone — lengths as 2-byte
+little-endian numbers, no `uint16_t` conversion, no `dump_data`) -/
+theorem wire_layout_A (ty : Ty) (v : Val) (h : WF ty v) : encodeA ty v = layout ty v :=
+  encodeA_eq_layout ty v h
+
+theorem wire_layout_S (ty : Ty) (v : Val) (hs : ty.supportedS = true) (h : WF ty v) :
+    encodeS ty v = layout ty v := by
+  rw [encS_eq_encA ty v hs]; exact encodeA_eq_layout ty v h
+
+/-- the layout of a nested value, spelled out once: map<string, vector<u16>> {"A": [1, 0x203]} -/
+theorem wire_layout_example :
+    layout (.map .str (.vec (.sc .u16))) (.list [.list [.bytes [0x41], .list [.sc 1, .sc 0x203]]]) =
+      [1, 0,  1, 0, 0x41,  2, 0,  1, 0,  3, 2] := by decide
+
+/-- `dump(const char*, uint16_t)` and `dump(std::string_view)` write what `dump(igris::buffer)` writes -/
+theorem wire_char_array (bs : List Byte) : dumpCharArr bs = dumpBuffer bs :=
+  dumpCharArr_eq_dumpBuffer bs
+
+/-! ## 8. extension: capped buffer loads (`load(char*, maxsz)`, `load(writable_buffer&)`) -/
+
+/-- after `fix: capped buffer loads … skip the part of the payload that does
+not fit`: whatever the capacity of the destination, the load delivers the first
+min(capacity, length) bytes and leaves the reader exactly behind the payload —
+the following fields are read in step -/
+theorem capped_load_in_step (bs rest : List Byte) (cap : Nat) (h : bs.length ≤ 65535) :
+    loadWritable (dumpBuffer bs ++ rest) cap = some (bs.take cap, rest) ∧
+    loadCharArr (dumpCharArr bs ++ rest) cap = some (bs.take (cap % 65536), rest) :=
+  ⟨loadWritable_dumpBuffer bs rest cap h, loadCharArr_dumpCharArr bs rest cap h⟩
+
+/-- hence a value written after the payload is read back after the capped load -/
+theorem capped_load_then_value (bs rest : List Byte) (cap : Nat) (ty : Ty) (v : Val)
+    (h : bs.length ≤ 65535) (hv : WF ty v) :
+    ∃ r, loadWritable (dumpBuffer bs ++ (encodeA ty v ++ rest)) cap = some (bs.take cap, r) ∧
+      decodeA ty r = some (v, rest) :=
+  ⟨_, loadWritable_dumpBuffer bs _ cap h, rtA ty v rest hv⟩
+
+/-- historical: the loads as they were — the unread part of the payload stayed
+in front of the reader … -/
+theorem capped_load_old_out_of_step (bs rest : List Byte) (cap : Nat) (h : bs.length ≤ 65535) :
+    loadCappedOld (dumpBuffer bs ++ rest) cap = some (bs.take cap, bs.drop cap ++ rest) :=
+  loadCappedOld_dumpBuffer bs rest cap h
+
+/-- … e.g. the replayed violation `cap c 0 2f u8 14 -`: payload `2f` into a
+0-byte destination, then the `uint8_t` 0x14 was read back as 0x2f -/
+theorem capped_load_old_out_of_step_witness :
+    loadCappedOld (dumpBuffer [0x2f] ++ encodeA (.sc .u8) (.sc 0x14)) 0 = some ([], [0x2f, 0x14]) ∧
+    decodeA (.sc .u8) [0x2f, 0x14] = some (.sc 0x2f, [0x14]) := ⟨rfl, rfl⟩
+
+/-! ## 9. extension: beyond the 16-bit count (outside the property's domain — what exactly happens) -/
+
+/-- a string/buffer of ANY length: count = length mod 65536 and only that many
+bytes are written; the value is cut, the stream stays in step.  (`roundtrip_prefix_A`
+is the case length <= 65535, where nothing is cut.) -/
+theorem string_any_length (bs rest : List Byte) :
+    decodeA .str (encodeA .str (.bytes bs) ++ rest) = some (.bytes (bs.take (bs.length % 65536)), rest) := by
+  simp only [encodeA, decodeA, Val.bs, loadBuffer_dumpBuffer_any]
+  rfl
+
+/-- a vector of ANY length: count = n mod 65536 but ALL n elements are written;
+the reader takes the first n mod 65536 and the others stay in the stream -/
+theorem vector_any_length (t : Ty) (vs : List Val) (rest : List Byte) (hall : ∀ x ∈ vs, WF t x) :
+    decodeA (.vec t) (encodeA (.vec t) (.list vs) ++ rest) =
+      some (.list (vs.take (vs.length % 65536)),
+            (vs.drop (vs.length % 65536)).flatMap (encodeA t) ++ rest) :=
+  decodeA_vec_any t vs rest hall
+
+/-- witness beyond the precondition of the round trip: 65536 bytes / elements
+come back as none, and for the vector the reader is left 65536 bytes early -/
+theorem count_wrap_witness (rest : List Byte) :
+    decodeA .str (encodeA .str (.bytes (List.replicate 65536 0x41#8)) ++ rest) = some (.bytes [], rest) ∧
+    decodeA (.vec (.sc .u8)) (encodeA (.vec (.sc .u8)) (.list (List.replicate 65536 (.sc 7))) ++ rest) =
+      some (.list [], (List.replicate 65536 (Val.sc 7)).flatMap (encodeA (.sc .u8)) ++ rest) := by
+  constructor
+  · have := string_any_length (List.replicate 65536 0x41#8) rest
+    rw [List.length_replicate] at this
+    exact this
+  · have := vector_any_length (.sc .u8) (List.replicate 65536 (.sc 7)) rest (by
+      intro x hx
+      rw [List.eq_of_mem_replicate hx]
+      exact wfb_sound _ _ (by decide))
+    rw [List.length_replicate] at this
+    exact this
+
+/-! ## 10. extension: `archive::data<T>(xs, N)` — a fixed-size array as its raw image, no count -/
+
+/-- round trip of an N-element scalar array whenever the image fits the 16-bit
+size parameter (N*sizeof(T) <= 65535) -/
+theorem data_array_roundtrip (k : Sc) (vs : List Val) (rest : List Byte)
+    (hfit : ∀ v ∈ vs, ∃ n, v = .sc n ∧ n < 2 ^ (8 * k.width)) (h : vs.length * k.width ≤ 65535) :
+    decodeData k vs.length (encodeData k vs ++ rest) = some (vs, rest) :=
+  decodeData_encodeData k vs rest hfit h
+
+/-- witness beyond it: `uint16_t xs[32768]` (65536 bytes) is written as NOTHING -/
+theorem data_array_wrap_witness : encodeData .u16 (List.replicate 32768 (.sc 7)) = [] := by
+  have h0 : u16 ((List.replicate 32768 (Val.sc 7)).length * Sc.width .u16) = 0 := by
+    rw [List.length_replicate]; decide
+  simp only [encodeData, dumpData, h0, List.take_zero]
+
+/-- `deserialize_storage::loads(n)` is the clamped load: the available prefix, zero-padded -/
+theorem storage_loads (rem : List Byte) (n : Nat) :
+    loadsS rem n = some (rem.take n ++ List.replicate (n - rem.length) 0#8, rem.drop n) :=
+  loadS_eq rem n
+
 /-! ## non-vacuity: the hypotheses are satisfiable by non-trivial values -/
 
 -- a map<string, vector<pair<i8,u16>>> with two entries in key order
@@ -228,5 +399,18 @@ example : WFs [.sc .u8, .str] [.sc 5, .bytes [0, 0]] := wfbs_sound _ _ (by decid
 
 example : (List.replicate 16383 (Val.sc 7)).length * Sc.width .i32 ≤ 65535 := by
   rw [List.length_replicate]; decide
+
+-- extension
+example : WF (.sc .u32) (.sc 0x04030201) ∧ 2 < (encodeA (.sc .u32) (.sc 0x04030201)).length := by
+  refine ⟨wfb_sound _ _ (by decide), by decide⟩
+example : encodeA (.sc .u8) (.sc 1) ++ [5] = encodeA (.sc .u8) (.sc 1) ++ [5] := rfl
+example : decodeA (.pair (.sc .u8) .str) [7, 1, 0, 0x41, 9] = some (.list [.sc 7, .bytes [0x41]], [9]) := rfl
+example : ([0x61, 0x62, 0x63] : List Byte).length ≤ 65535 := by decide
+example : ∀ v ∈ [Val.sc 1, Val.sc 0xffff], ∃ n, v = .sc n ∧ n < 2 ^ (8 * Sc.width .u16) := by
+  intro v hv
+  simp only [List.mem_cons, List.not_mem_nil, or_false] at hv
+  rcases hv with rfl | rfl
+  · exact ⟨1, rfl, by decide⟩
+  · exact ⟨0xffff, rfl, by decide⟩
 
 end Igris.C09
